@@ -98,7 +98,12 @@ class FullFrontend(ConstrainedFrontend):
         return self._tls.solver
 
     def _add_constraints(self):
-        self._solver_backend.add(self._tls.solver, self.constraints, track=self._track)
+        try:
+            self._solver_backend.add(self._tls.solver, self.constraints, track=self._track)
+        except Exception:
+            # a backend solver that holds only some of the constraints must not answer the next query
+            self._tls.solver = None
+            raise
         self._to_add = []
 
     #
